@@ -8,8 +8,7 @@ namespace IsoVerif.Pico
 /-- the outcome of a call in a state satisfying the invariant -/
 theorem step_call_inc {P : Prog} {rank : Nat → Nat} (hacy : Acyclic P rank) (fuel : Nat) (hrank : ∀ g, rank g < fuel)
     (s : Storage) (f a v : Nat) (h : TopInv P s)
-    (hv : evalS fuel P s.srcs s.maps [] (nodeOf P f a) = .ok v)
-    (hst : ∀ n r, alookup s.derived n = some r → ∃ w, evalS fuel P s.srcs s.maps [] n = .ok w) :
+    (hv : evalS fuel P s.srcs s.maps [] (nodeOf P f a) = .ok v) :
     TopInv P (step fuel P s (.call f a)).1 ∧
       ((step fuel P s (.call f a)).2 = .dead ∨ (step fuel P s (.call f a)).2 = .val v) := by
   unfold step
@@ -17,10 +16,7 @@ theorem step_call_inc {P : Prog} {rank : Nat → Nat} (hacy : Acyclic P rank) (f
   · rw [if_pos hp]; exact ⟨h, Or.inl rfl⟩
   · rw [if_neg hp]
     obtain ⟨R, hbig⟩ := bigN_of_evalS fuel [] _ v hv
-    have hinv : INV P s [] := h.toINV (fun n r hn => by
-      obtain ⟨w, hw⟩ := hst n r hn
-      obtain ⟨Rw, hRw⟩ := bigN_of_evalS fuel [] n w hw
-      exact ⟨w, Rw, hRw⟩)
+    have hinv : INV P s [] := h.toINV
     have hp0 : pushTop s (nodeOf P f a) =
         { s with topCalls := s.topCalls ++ [nodeOf P f a], pushes := s.pushes ++ [nodeOf P f a] } := by
       simp [pushTop, h.stack]
@@ -39,14 +35,12 @@ theorem step_call_inc {P : Prog} {rank : Nat → Nat} (hacy : Acyclic P rank) (f
 
 theorem TopInv.step {P : Prog} {rank : Nat → Nat} (hacy : Acyclic P rank) (fuel : Nat) (hrank : ∀ g, rank g < fuel)
     {s : Storage} (hinv : TopInv P s) (op : Op)
-    (hclean : ∀ f a, op = .call f a →
-      (∃ v, evalS fuel P s.srcs s.maps [] (nodeOf P f a) = .ok v) ∧
-      ∀ n r, alookup s.derived n = some r → ∃ w, evalS fuel P s.srcs s.maps [] n = .ok w) :
+    (hclean : ∀ f a, op = .call f a → ∃ v, evalS fuel P s.srcs s.maps [] (nodeOf P f a) = .ok v) :
     TopInv P (step fuel P s op).1 := by
   cases op with
   | call f a =>
-    obtain ⟨⟨v, hv⟩, hst⟩ := hclean f a rfl
-    exact (step_call_inc hacy fuel hrank s f a v hinv hv hst).1
+    obtain ⟨v, hv⟩ := hclean f a rfl
+    exact (step_call_inc hacy fuel hrank s f a v hinv hv).1
   | set k v =>
     unfold IsoVerif.Pico.step; split
     · exact hinv
@@ -115,9 +109,7 @@ theorem TopInv.init (P : Prog) (cap nfn : Nat) : TopInv P (Storage.init cap nfn)
 theorem topInv_runS {P : Prog} {rank : Nat → Nat} (hacy : Acyclic P rank) (fuel : Nat) (hrank : ∀ g, rank g < fuel) :
     ∀ (pre : List Op) (s : Storage), TopInv P s →
     (∀ p f a rest, pre = p ++ Op.call f a :: rest →
-        (∃ v, evalS fuel P (runS fuel P s p).srcs (runS fuel P s p).maps [] (nodeOf P f a) = .ok v) ∧
-        ∀ n r, alookup (runS fuel P s p).derived n = some r →
-          ∃ w, evalS fuel P (runS fuel P s p).srcs (runS fuel P s p).maps [] n = .ok w) →
+        ∃ v, evalS fuel P (runS fuel P s p).srcs (runS fuel P s p).maps [] (nodeOf P f a) = .ok v) →
     TopInv P (runS fuel P s pre) := by
   intro pre
   induction pre with
@@ -133,7 +125,7 @@ theorem topInv_runS {P : Prog} {rank : Nat → Nat} (hacy : Acyclic P rank) (fue
 
 /-- **C01, stages 2 and 3**: nested calls across source changes, with collections -/
 theorem c01_inc {P : Prog} {rank : Nat → Nat} (hacy : Acyclic P rank) (fuel cap : Nat) (hrank : ∀ g, rank g < fuel)
-    (h : List Op) (hclean : CleanStore fuel cap P h)
+    (h : List Op) (hclean : CleanCalls fuel cap P h)
     (pre : List Op) (f a : Nat) (rest : List Op) (hh : h = pre ++ Op.call f a :: rest) :
     (step fuel P (after fuel cap P pre) (.call f a)).2 = .dead ∨
       (step fuel P (after fuel cap P pre) (.call f a)).2 = outOfRes (evalScratch fuel P (after fuel cap P pre) (nodeOf P f a)) := by
@@ -142,8 +134,8 @@ theorem c01_inc {P : Prog} {rank : Nat → Nat} (hacy : Acyclic P rank) (fuel ca
     refine topInv_runS hacy fuel hrank pre _ (TopInv.init P cap P.length) ?_
     intro p f' a' rest' hp
     exact hclean p f' a' (rest' ++ Op.call f a :: rest) (by rw [hh, hp]; simp)
-  obtain ⟨⟨v, hv⟩, hst⟩ := hclean pre f a rest hh
-  rcases (step_call_inc hacy fuel hrank _ f a v hinv hv hst).2 with hd | hval
+  obtain ⟨v, hv⟩ := hclean pre f a rest hh
+  rcases (step_call_inc hacy fuel hrank _ f a v hinv hv).2 with hd | hval
   · exact Or.inl hd
   · right; rw [hval]; unfold evalScratch; rw [hv]; rfl
 
@@ -159,52 +151,5 @@ theorem acyclic_of_bounded (P : Prog) (rank : Nat → Nat)
       unfold fnOf
       rw [List.getD_eq_getElem?_getD, List.getElem?_eq_none (Nat.le_of_not_lt hf)]; rfl
     rw [this] at hg; simp [Expr.calls] at hg
-
-def storeCleanAt (fuel cap : Nat) (P : Prog) (h : List Op) (i : Nat) : Bool :=
-  match h.getD i .gc with
-  | .call f a =>
-    let s := after fuel cap P (h.take i)
-    (evalS fuel P s.srcs s.maps [] (nodeOf P f a)).isOk &&
-      s.derived.all (fun p => (evalS fuel P s.srcs s.maps [] p.1).isOk)
-  | _ => true
-
-def cleanStoreB (fuel cap : Nat) (P : Prog) (h : List Op) : Bool :=
-  (List.range h.length).all (storeCleanAt fuel cap P h)
-
-theorem mem_of_alookup {α β : Type} [DecidableEq α] : ∀ (l : List (α × β)) (a : α) (b : β),
-    alookup l a = some b → (a, b) ∈ l := by
-  intro l
-  induction l with
-  | nil => intro a b h; simp [alookup] at h
-  | cons p l ih =>
-    intro a b h
-    obtain ⟨k, v⟩ := p
-    by_cases hk : k = a
-    · subst hk; simp [alookup] at h; subst h; exact List.mem_cons_self
-    · simp [alookup, hk] at h; exact List.mem_cons_of_mem _ (ih a b h)
-
-theorem cleanStore_of_B (fuel cap : Nat) (P : Prog) (h : List Op) (hb : cleanStoreB fuel cap P h = true) :
-    CleanStore fuel cap P h := by
-  intro pre f a rest hh
-  have hlen : pre.length < h.length := by rw [hh]; simp
-  have hat : storeCleanAt fuel cap P h pre.length = true := by
-    unfold cleanStoreB at hb
-    rw [List.all_eq_true] at hb
-    exact hb _ (List.mem_range.2 hlen)
-  have htake : h.take pre.length = pre := by rw [hh]; simp
-  have hget : h.getD pre.length .gc = .call f a := by rw [hh]; simp
-  unfold storeCleanAt at hat
-  rw [hget, htake] at hat
-  simp only [Bool.and_eq_true, List.all_eq_true] at hat
-  obtain ⟨h1, h2⟩ := hat
-  constructor
-  · cases he : evalS fuel P (after fuel cap P pre).srcs (after fuel cap P pre).maps [] (nodeOf P f a) with
-    | ok v => exact ⟨v, rfl⟩
-    | panic p => rw [he] at h1; simp [Res.isOk] at h1
-  · intro n r hn
-    have := h2 (n, r) (mem_of_alookup _ _ _ hn)
-    cases he : evalS fuel P (after fuel cap P pre).srcs (after fuel cap P pre).maps [] n with
-    | ok v => exact ⟨v, rfl⟩
-    | panic p => simp only at this; rw [he] at this; simp [Res.isOk] at this
 
 end IsoVerif.Pico
